@@ -149,6 +149,17 @@ def judge(job, out):
       issues.append(("lookup-order", "%s: CPython finds %s, pytype infers %s (class C%s attr %s via %s)"
                      % (v, tname, got, i, n, kind)))
       break
+  # the MROs the real compute_mro returned (observed, no model involved) vs the interpreter's __mro__
+  obs = observed_table(job, out) if out.get("mro_calls") else None
+  cm, cf, cmsg = g.cpython_table(job["H"])
+  cpy = g.enc_table(cm, cf)
+  if obs is not None and obs != cpy and not any(f in ("duplicate-base", "missing-mro-error:inconsistent-order") for f, _ in issues):
+    if obs[0] == cpy[0]:
+      k = next(i for i in range(1, max(len(obs), len(cpy))) if obs[i:i + 1] != cpy[i:i + 1])
+      issues.append(("compute_mro-order-differs-from-cpython",
+                     "class C%d: compute_mro returned %s, CPython's __mro__ is %s" % (k - 1, obs[k:k + 1], cpy[k:k + 1])))
+    else:
+      issues.append(("compute_mro-verdict-differs-from-cpython", "compute_mro: %s, CPython: %s (%s)" % (obs[0], cpy[0], cmsg)))
   return issues
 
 
@@ -194,8 +205,10 @@ def run_inproc(job):
   if not _inproc:
     common.bootstrap_pytype()
     from pytype import config, io
-    _inproc["io"] = io; _inproc["config"] = config
+    import c10_e2e
+    _inproc["io"] = io; _inproc["config"] = config; _inproc["calls"] = c10_e2e.install_hook()
   import shutil
+  del _inproc["calls"][:]
   out = {"errors": [], "pyi": "", "mro_calls": [], "exc": None}
   try:
     kw = {}
@@ -209,6 +222,7 @@ def run_inproc(job):
     out["pyi"] = pyi
   except Exception as e:
     out["exc"] = "%s: %s" % (type(e).__name__, str(e)[:300])
+  out["mro_calls"] = [list(c) for c in _inproc["calls"]]
   return out
 
 
@@ -248,6 +262,88 @@ def common_coqchk(pid):
   r = subprocess.run(["timeout", "1500", "coqchk", "-silent", "-o", "-Q", common.COQ, "PV", f"PV.Props.{pid}"],
                      capture_output=True, text=True, cwd=common.COQ)
   return r.returncode == 0, r.stdout + r.stderr
+
+
+def pure_oracle(H, pre=None):
+  """Direct property oracle on the real pure-Python code, no model involved: mro.MROMerge applied per class exactly as
+  compute_mro applies it, and mro.GetBasesInMRO on hand-built pytd classes, vs the running interpreter.
+  Only for tables without a repeated base (those are decided end to end).  Returns [(fingerprint, what)]."""
+  if has_dup(H):
+    return []
+  cm, cf, _ = pre[0] if pre else g.cpython_table(H)
+  pm, pf, _ = pre[1] if pre else g.py_table(H)
+  a, b = g.enc_table(cm, cf), g.enc_table(pm, pf)
+  issues = []
+  if a != b:
+    if a[0] == b[0]:
+      k = next(i for i in range(1, max(len(a), len(b))) if a[i:i + 1] != b[i:i + 1])
+      issues.append(("mromerge-order-differs-from-cpython",
+                     "class C%d: MROMerge([[C]] + base MROs + [bases]) = %s, CPython's __mro__ = %s" % (k - 1, b[k:k + 1], a[k:k + 1])))
+    else:
+      issues.append(("mromerge-verdict-differs-from-cpython", "MROMerge per class: %s, CPython: %s" % (b[0], a[0])))
+  if cf is None or cf == len(H) - 1:       # every class before the last one exists in CPython
+    want = [1] if cf is not None else [0] + cm[-1][1:]
+    got = (pre[2] if pre else g.pytd_bases_in_mro(H[:-1], H[-1]))
+    if got != want:
+      fp = "getbasesinmro-order-differs-from-cpython" if got[0] == want[0] == 0 else "getbasesinmro-verdict-differs-from-cpython"
+      issues.append((fp, "GetBasesInMRO(C%d) = %s ([0]+bases in MRO, [1] = MROError); CPython: %s" % (len(H) - 1, got, want)))
+  return issues
+
+
+def shrink_table(H, fp, budget_s=15.0):
+  """Drops classes that no later class names while pure_oracle keeps reporting fp (time-bounded)."""
+  deadline = time.time() + budget_s
+  H = [list(b) for b in H]
+  changed = True
+  while changed and time.time() < deadline:
+    changed = False
+    for k in range(len(H) - 1, 0, -1):
+      if any(k in b for b in H[k + 1:]) or len(H) <= 2:
+        continue
+      ren = lambda x: x - 1 if x > k else x
+      H2 = [[ren(x) for x in b] for i, b in enumerate(H) if i != k]
+      if any(f == fp for f, _ in pure_oracle(H2)):
+        H = H2; changed = True
+        break
+  return H
+
+
+def targeted_attrs(H):
+  """Attribute placement that makes an MRO order difference visible: attribute a is defined by exactly the two
+  classes at the first position where the real MROMerge result and CPython's __mro__ differ."""
+  cm, cf, _ = g.cpython_table(H)
+  pm, pf, _ = g.py_table(H)
+  attrs = [[] for _ in H]
+  for i in range(1, min(len(cm), len(pm))):
+    if cm[i] != pm[i]:
+      k = next(j for j in range(max(len(cm[i]), len(pm[i]))) if cm[i][j:j + 1] != pm[i][j:j + 1])
+      for c in cm[i][k:k + 1] + pm[i][k:k + 1]:
+        if c:
+          attrs[c] = ["a", "m"]
+      break
+  return attrs
+
+
+def extended_search(res, seed, want_fps, budget_s=75.0):
+  """After a correspondence leg broke: look for a table on which the REAL code disagrees with CPython
+  (exhaustive <=5 user classes x <=3 bases without repetition pruned as usual, then random tables)."""
+  deadline = time.time() + budget_s
+  found = {}
+  def visit(H):
+    for fp, what in pure_oracle(H):
+      key = (len(H), sum(map(len, H)))
+      if fp not in found or key < found[fp][0]:
+        found[fp] = (key, H, what)
+  r = common.rng(seed, "c10", "extended")
+  n = 0
+  for H in g.exhaustive(5, 3, allow_repeats=False):
+    visit(H); n += 1
+    if n % 256 == 0 and (time.time() > deadline or (want_fps and all(any(f.startswith(w) for f in found) for w in want_fps))):
+      break
+  while time.time() < deadline and n < 200000 and not found:
+    visit(g.random_table(r, r.randint(3, 9), max_bases=r.choice([3, 4]), p_dup=0.0, p_wild=0.1)); n += 1
+  res.extra["extended_search_tables"] = n
+  return found
 
 
 def load_corpus():
@@ -337,7 +433,7 @@ def run(res):
   if common.REPO not in sys.path:
     sys.path.insert(0, common.REPO)
   hist_sizes, hist_out = {}, {"all-created": 0, "inconsistent-order": 0, "duplicate-base": 0}
-  pure_viol = []
+  pure_viol = {}
   impl_t = []
   for name, H in tables:
     cm, cf, cmsg = g.cpython_table(H)
@@ -350,16 +446,9 @@ def run(res):
     hist_out["all-created" if cf is None else ("duplicate-base" if cmsg.startswith("duplicate") else "inconsistent-order")] += 1
     nontrivial = any(len(b) >= 2 for b in H)
     res.count(("table", tuple(map(tuple, H))) if nontrivial else None)
-    # direct oracle at the merge level: the real MROMerge per class vs the interpreter, when no base is repeated
-    if not has_dup(H) and (g.enc_table(cm, cf) != g.enc_table(pm, pf)):
-      pure_viol.append((len(H), sum(map(len, H)), H, g.enc_table(cm, cf), g.enc_table(pm, pf)))
-  if pure_viol:
-    pure_viol.sort()
-    _, _, H, a, b = pure_viol[0]
-    res.violation("merge-differs-from-cpython",
-                  "mro.MROMerge applied as compute_mro applies it differs from type().__mro__ on %d tables; smallest H=%s: "
-                  "cpython=%s pytype=%s" % (len(pure_viol), H, a, b),
-                  {"kind": "table", "H": H, "cpython": a, "pytype_mromerge": b})
+    # direct oracle on the real pure functions vs the interpreter (no model involved)
+    for fp, what in pure_oracle(H, pre=((cm, cf, cmsg), (pm, pf, pmerges), pd)):
+      pure_viol.setdefault(fp, []).append((len(H), sum(map(len, H)), H, what))
   seen = set()
   mcases = []
   for seqs, sing in merges:
@@ -391,6 +480,24 @@ def run(res):
                  "%d of %d tables disagree; first: %s" % (len(bad_d), len(tables), bad_d[:1]))
   res.obligation("correspondence:merge_py_gen-vs-mro.MROMerge", not bad_m,
                  "%d of %d sequence lists disagree; first: %s" % (len(bad_m), len(mcases), bad_m[:1]))
+  # A broken leg with no table on which the real code itself disagrees with CPython yet: widen the search.
+  if (bad_p or bad_d or bad_m) and not pure_viol:
+    t_ext = time.time()
+    for fp, (_, H, what) in extended_search(res, res.seed, (["mromerge"] if (bad_p or bad_m) else []) +
+                                            (["getbasesinmro"] if bad_d else [])).items():
+      pure_viol.setdefault(fp, []).append((len(H), sum(map(len, H)), H, what))
+    res.extra["t_extended_search_s"] = round(time.time() - t_ext, 1)
+  extra_jobs = []
+  for fp, lst in sorted(pure_viol.items()):
+    lst.sort()
+    H = shrink_table(lst[0][2], fp)
+    what = next((w for f, w in pure_oracle(H) if f == fp), lst[0][3])
+    if len(res.violations) < 3 or fp in res.known:
+      res.violation(fp, "%s [%d tables; smallest H=%s]" % (what, len(lst), H), {"kind": "table", "H": H})
+    if fp.startswith("mromerge"):
+      # the same table as a source program through real pytype, attributes placed where the orders differ
+      Ht = g.truncate_at_first_failure(H)[0]
+      extra_jobs.append(make_job(-1 - len(extra_jobs), "source", Ht, targeted_attrs(H)[:len(Ht)], 1))
   # the extracted runner against the kernel's own evaluation (vm_compute) on a sample
   r3 = common.rng(res.seed, "c10", "kernel")
   ks = [i for i in range(len(tables)) if tables[i][0].startswith("corpus")] + r3.sample(range(len(tables)), min(80, len(tables)))
@@ -464,6 +571,10 @@ def run(res):
                   "pytype_errors": out["errors"], "observed_compute_mro": obs})
     for fp, what in issues:
       fp_seen.setdefault(fp, []).append((job, what))
+  for job in extra_jobs:          # tables on which the real pure code disagrees with CPython: confirm end to end
+    for fp, what in judge(job, run_inproc(job)):
+      if fp not in ("not-explorable", "pytype-crash"):
+        fp_seen.setdefault(fp, []).append((job, what))
   for fp, lst in sorted(fp_seen.items()):
     lst.sort(key=lambda jw: (len(jw[0]["H"]), sum(map(len, jw[0]["H"]))))
     job, what = lst[0]
@@ -541,11 +652,15 @@ def replay(res, path):
   d = json.load(open(path))["replay"]
   if d.get("kind") == "table":
     H = d["H"]
-    sys.path.insert(0, common.REPO) if common.REPO not in sys.path else None
-    a = g.enc_table(*g.cpython_table(H)[:2]); b = g.enc_table(*g.py_table(H)[:2])
-    print("cpython :", a)
-    print("pytype  :", b)
-    return 0 if a == b else 1
+    if common.REPO not in sys.path:
+      sys.path.insert(0, common.REPO)
+    print("table H          :", H)
+    print("cpython          :", g.enc_table(*g.cpython_table(H)[:2]))
+    print("MROMerge per cls :", g.enc_table(*g.py_table(H)[:2]))
+    print("GetBasesInMRO    :", g.pytd_bases_in_mro(H[:-1], H[-1]), "for class C%d" % (len(H) - 1))
+    issues = pure_oracle(H)
+    print("oracle           :", issues or "agree")
+    return 1 if issues else 0
   H = g.truncate_at_first_failure(d["H"])[0]
   job = make_job(0, d["mode"], H, d["attrs"][:len(H)], d.get("style", 0))
   out = run_inproc(job)
